@@ -24,10 +24,13 @@ def det(ctx, scenarios, procs):
 
 def run(ctx):
     ctx.coverage["rule"] = (ledger.rule("C01") + "; plus N independent OS processes (fresh map seeds) replaying the same chain with the real daemon and comparing "
-                            "their canonical dumps; the chains contain exact ties (equal stakes, equal PEG requests in one batch and across batches)")
+                            "their canonical dumps, and a daemon under API load against an unloaded one; the chains contain exact ties (equal stakes, equal PEG requests in one batch and across batches)")
     ctx.proof_stage()
     ledger.run(ctx)
     det(ctx, ["ties", "staking"] if ctx.tier == "quick" else ["ties", "staking", "eras", "bank", "top100"], 4 if ctx.tier == "quick" else 16)
+    # goroutine scheduling: the same chain replayed by a daemon that serves API requests meanwhile
+    from . import c18
+    c18.apiload(ctx, ["gaps"], 8, False, status=False, runs=1)
 
 
 def search(ctx, why):
